@@ -891,6 +891,20 @@ def round_trips(spec, tmpdir):
             obs['to_dict'] = ERRMAP.get(type(e).__name__, 'other:' + type(e).__name__)
         unchanged('to_dict', 'dict')
         obs['wnone']['after_dict'] = wnone()
+        if tree is None and what == 'basis' and x.grid is None:
+            # the part of the dictionary form that exists: sent to the model as a basis without grid
+            try:
+                import hcipy
+                x2 = copy.copy(x)
+                x2.grid = hcipy.CartesianGrid(hcipy.UnstructuredCoords([np.arange(spec['npoints'], dtype='float64')]))
+                t2 = x2.to_dict()
+                del t2['grid']
+                obs['nogrid_tree'] = encode(t2)
+            except MachineryError:
+                raise
+            except Exception:  # noqa
+                pass
+            unchanged('copy.copy', 'dict')
         if tree is not None:
             obs['tree'] = encode(tree)
             try:
@@ -1164,6 +1178,16 @@ def model_requests(spec, obs):
         if what == 'field' and 'getstate' in obs:
             lay, exp = obs['getstate']
             reqs.append(('getstate', 'C16 getstate field %s %s' % (lay, obs['dict_tree']), exp))
+    if 'tree' not in obs and 'nogrid_tree' in obs:
+        # a mode basis without grid has no dictionary form: every write with a resolvable format is refused with
+        # AttributeError (to_dict() runs before the dispatch), in pickle and unknown formats too
+        for o in obs.get('named', []):
+            fm = o['fmt'] if o['fmt'] is not None else '-'
+            exp = 'ok w=%s fam=%s r=%s out=-' % (o['w'], o['fam'], o['r'])
+            reqs.append(('filert', 'C16 filert basis - %s %s %s' % (o['name'], fm, obs['nogrid_tree']), exp))
+        for fmt, o in obs['fmt'].items():
+            exp = 'ok w=%s fam=%s r=%s out=-' % (o['w'], FAM_OF[fmt] if o['w'] == 'ok' else '-', o['r'])
+            reqs.append(('filert', 'C16 filert basis - x.%s - %s' % (fmt, obs['nogrid_tree']), exp))
     if 'tree' not in obs:
         return reqs
     tree = obs['tree']
@@ -1276,6 +1300,8 @@ def check_spec(ctx, spec, tmpdir, batch):
                                           'model': 'a grid with an unregistered coordinate system is written but not readable'})
     if 'getstate' in obs:
         ctx.count('getstate-layout:' + obs['getstate'][0])
+    if 'nogrid_tree' in obs:
+        ctx.count('basis-without-grid:sent-to-model')
     for o in obs.get('named', []):
         ctx.count('named-file:%s:%s' % ('fmt=' + (o['fmt'] or 'None'), 'written as %s, read %s' % (o['fam'], o['r']) if o['w'] == 'ok' else 'write-refused-' + o['w']))
         ctx.count('named-file:name:' + o['name'])
